@@ -76,7 +76,6 @@ Definition decode_env_tuple (sc : env_scn) (t : tup8) : env_scn :=
 Definition decode_env_scn (l : list Z) : env_scn :=
   fold_left decode_env_tuple (chunk8 l) (mkEnvScn 0 1 [] []).
 
-Definition bZ (b : bool) : Z := if b then 1 else 0.
 Definition optZ (o : option Z) : list Z := match o with Some z => [1; z] | None => [0; 0] end.
 
 Definition enc_event (e : event nat) : list Z :=
